@@ -4,21 +4,7 @@
 // the whole 512-byte fpstate are symbolic; no loop bound is involved (fixed-size arrays).
 use super::*;
 
-pub(crate) fn any_pod<T, const N: usize>() -> T {
-    assert!(core::mem::size_of::<T>() == N);
-    let bytes: [u8; N] = kani::any();
-    unsafe { core::mem::transmute_copy::<[u8; N], T>(&bytes) }
-}
-
-pub(crate) fn any_crash_context() -> CrashContext {
-    let mut inner: crash_context::CrashContext = unsafe { core::mem::zeroed() };
-    inner.context.uc_mcontext.gregs = kani::any();
-    inner.float_state = any_pod::<crash_context::fpregset_t, 512>();
-    inner.siginfo.ssi_signo = kani::any();
-    inner.siginfo.ssi_code = kani::any();
-    inner.siginfo.ssi_addr = kani::any();
-    CrashContext { inner }
-}
+use super::super::__verif_crash_context::any_crash_context;
 
 #[kani::proof]
 fn vk_crash_fill_cpu_context_gprs() {
